@@ -38,11 +38,13 @@ struct Cfg {
     net: NetID,
     height: u64,
     floor2: bool,
+    /// fee pool of the parent state (the step does not depend on it)
+    fee_pool: u128,
 }
 
 pub fn one(run: &Run, base: &Sealed, db: &Db, cfg: &Cfg, m: u128, delta: Option<i8>) {
     let replay = json!({"config": cfg.name, "network": format!("{:?}", cfg.net), "parent_height": cfg.height, "fee_multiplier": m.to_string(), "delta": delta});
-    let parent = fabricate_with(base, db, cfg.net, cfg.height, 1 << 40, m, 1_000_000);
+    let parent = fabricate_with(base, db, cfg.net, cfg.height, cfg.fee_pool, m, 1_000_000);
     let action = delta.map(|d| ProposerAction {
         fee_multiplier_delta: d,
         reward_dest: addr_true(),
@@ -103,13 +105,17 @@ pub fn one(run: &Run, base: &Sealed, db: &Db, cfg: &Cfg, m: u128, delta: Option<
 
 fn configs() -> Vec<Cfg> {
     vec![
-        Cfg { name: "custom02-after901", net: NetID::Custom02, height: 5, floor2: true },
-        Cfg { name: "mainnet-before901", net: NetID::Mainnet, height: 42_000, floor2: false },
+        Cfg { name: "custom02-after901", net: NetID::Custom02, height: 5, floor2: true, fee_pool: 1 << 40 },
+        Cfg { name: "mainnet-before901", net: NetID::Mainnet, height: 42_000, floor2: false, fee_pool: 1 << 40 },
         // parent 42698 -> sealed block 42699 is the last one before TIP-901, parent 42699 -> block 42700 the first after
-        Cfg { name: "mainnet-last-before901", net: NetID::Mainnet, height: 42_698, floor2: false },
-        Cfg { name: "mainnet-first-after901", net: NetID::Mainnet, height: 42_699, floor2: true },
-        Cfg { name: "testnet-before500", net: NetID::Testnet, height: 100, floor2: false },
-        Cfg { name: "testnet-after500", net: NetID::Testnet, height: 499, floor2: true },
+        Cfg { name: "mainnet-last-before901", net: NetID::Mainnet, height: 42_698, floor2: false, fee_pool: 1 << 40 },
+        Cfg { name: "mainnet-first-after901", net: NetID::Mainnet, height: 42_699, floor2: true, fee_pool: 1 << 40 },
+        Cfg { name: "testnet-before500", net: NetID::Testnet, height: 100, floor2: false, fee_pool: 1 << 40 },
+        Cfg { name: "testnet-after500", net: NetID::Testnet, height: 499, floor2: true, fee_pool: 1 << 40 },
+        // an empty / nearly empty fee pool (no subsidy refills it before TIP-909): the proposer's payout is zero, the vote still counts
+        Cfg { name: "mainnet-after901-empty-fee-pool", net: NetID::Mainnet, height: 100_000, floor2: true, fee_pool: 0 },
+        Cfg { name: "mainnet-before901-fee-pool-65535", net: NetID::Mainnet, height: 1_000, floor2: false, fee_pool: 65_535 },
+        Cfg { name: "testnet-before500-empty-fee-pool", net: NetID::Testnet, height: 100, floor2: false, fee_pool: 0 },
     ]
 }
 
@@ -129,7 +135,7 @@ pub fn run(run: &Run) {
     run.set("multipliers", json!(ms.len()));
     run.set("deltas", json!(deltas.len()));
     run.set("configurations", json!(cfgs.iter().map(|c| c.name).collect::<Vec<_>>()));
-    let use_cfgs: Vec<&Cfg> = if thorough { cfgs.iter().collect() } else { cfgs.iter().filter(|c| ["custom02-after901", "mainnet-before901", "mainnet-first-after901"].contains(&c.name)).collect() };
+    let use_cfgs: Vec<&Cfg> = if thorough { cfgs.iter().collect() } else { cfgs.iter().filter(|c| ["custom02-after901", "mainnet-before901", "mainnet-first-after901", "mainnet-after901-empty-fee-pool"].contains(&c.name)).collect() };
     for cfg in use_cfgs {
         let items: Vec<(u128, Option<i8>)> = ms
             .iter()
